@@ -67,7 +67,7 @@ def full_digest(run):
         h.update(inv.err.replace(root.encode(), b"$ROOT"))
         h.update(repr((inv.code, inv.n, inv.cp, inv.ki)).encode())
         if st.after is not None:
-            h.update(json.dumps(st.after, sort_keys=True, default=str).encode())
+            h.update(json.dumps(st.after, sort_keys=True, default=str).replace(root, "$ROOT").encode())
     return h.hexdigest()
 
 
@@ -89,6 +89,8 @@ def run_scenario(prop, scn, seed, plans=None, want_sample=False):
         V, facts = P.check(run)
     finally:
         runner._safe_rmtree(run.work)
+        for w in getattr(run, "extra_work", []):
+            runner._safe_rmtree(w)
     res = {
         "seed": seed,
         "violations": [v.to_json() for v in V],
